@@ -174,5 +174,20 @@ theorem filter_raw_comm (h : StrictTotal (KOrd.lt (κ := κ))) (b : BSpec φ κ)
   rw [look_unionWith hk _ sx sy, look_unionWith hk _ sy sx, look_filter_raw h, look_filter_raw h]
   exact entry_comm _ _ m C M hC hM1 hM2 _ _
 
+theorem mem_rawBuckets_key (h : StrictTotal (KOrd.lt (κ := κ))) (b : BSpec φ κ)
+    (C : List (Doc φ κ) → List (Node κ)) (docs : List (Doc φ κ)) :
+    ∀ x ∈ rawBuckets b C docs, x.1 ∈ docs.flatMap (keysOf b) ++ extraKeys b := by
+  intro x hx
+  unfold rawBuckets at hx
+  simp only [List.mem_map] at hx
+  obtain ⟨kv, hkv, rfl⟩ := hx
+  have hk := keyLt_strictTotal h
+  have hl := look_of_mem hk (ksorted_keySet hk _) (show (kv.1, kv.2) ∈ _ from hkv)
+  rw [look_keySet hk] at hl
+  by_cases hm : kv.1 ∈ docs.flatMap (keysOf b) ++ extraKeys b
+  · exact hm
+  · simp [hm] at hl
+
+
 end
 end SL.Aggs
